@@ -31,7 +31,8 @@ class WorldC08(World):
               'rev-and-act', 'Keq-product', 'chemkin-unclamped', 'surface-unclamped', 'mixed-model-classes', 'q-ratio',
               'from-string', 'bep-transition-state', 'bep-shared-by-two-reactions', 'flags-as-numpy-bool', 'flags-as-int',
               'Keq-of-activation', 'arrhenius-Ea-explicit-molecularity', 'two-reactions-from-one-string',
-              'coefficients-edited-in-place', 'rejected-call-then-valid-calls')
+              'coefficients-edited-in-place', 'rejected-call-then-valid-calls', 'dimensional-getters',
+              'electronic-energy-with-ZPE')
     REAL = ('pmutt.reaction.Reaction / ChemkinReaction / pmutt.omkm.reaction.SurfaceReaction getters',
             'pmutt._get_specie_kwargs / _force_pass_arguments', 'StatMech, Nasa, Shomate species')
     SIMULATED = ('1-3 clients evaluating reactions over shared species and shared, re-used condition dictionaries',)
@@ -529,24 +530,77 @@ class WorldC08(World):
                         raise Violation('Keq', 'reaction %d: ln Keq(rev=%s, act=True) = %r, -(G_ts - G_initial)/RT = %r' % (
                             r, rv, math.log(ka), -dGa))
                     ctx.probe('Keq-of-activation')
-        if 'transition state' in val and q == 'HoRT' and m['cls'] == 'Reaction' and m.get('bep') is None:
+        if m['ts'] and m.get('bep') is None and (q == 'HoRT' or (m['cls'] != 'Reaction' and q in ('UoRT', 'SoR', 'CpoR'))):
+            hv = {st_: self._state(mem_, 'HoRT', cond) for st_, mem_ in (('reactants', m['reactants']),
+                                                                         ('products', m['products']),
+                                                                         ('transition state', m['ts']))}
+            if any(v_[0] is None for v_ in hv.values()):
+                return round(worst, 9)
+            hscale = hv['reactants'][1] + hv['products'][1]
             # Arrhenius activation energy with the molecularity change stated by the caller (0 for condensed-phase and
             # unimolecular steps): Ea/RT = dH_act/RT + (1 - del_m); with the same del_m both ways, forward - reverse = dH
-            ts = val['transition state'][0]
+            ts = hv['transition state'][0]
             for dm in (0, 1, -1):
                 ea = {}
                 for rv in (False, True):
-                    w = ts - val['products' if rv else 'reactants'][0] + (1 - dm)
+                    w = ts - hv['products' if rv else 'reactants'][0] + (1 - dm)
                     g = call(rxn.get_EoRT_act, 'get_EoRT_act(rev=%s, del_m=%d)' % (rv, dm), rev=F(rv), del_m=dm)
-                    if not self._close(g, w, val['transition state'][1] + scale, q):
+                    if not self._close(g, w, hv['transition state'][1] + hscale, 'HoRT'):
                         raise Violation('activation', 'reaction %d: get_EoRT_act(rev=%s, del_m=%d) = %r; dH_act/RT + (1 - del_m) = %r' % (
                             r, rv, dm, g, w))
                     ea[rv] = g
-                dH = val['products'][0] - val['reactants'][0]
-                if abs((ea[False] - ea[True]) - dH) > 1e-10 * (scale + 2 * val['transition state'][1]):
+                dH = hv['products'][0] - hv['reactants'][0]
+                if abs((ea[False] - ea[True]) - dH) > 1e-10 * (hscale + 2 * hv['transition state'][1]):
                     raise Violation('detailed-balance', 'reaction %d: Ea forward - reverse (del_m=%d) = %r, reaction enthalpy %r' % (
                         r, dm, ea[False] - ea[True], dH))
             ctx.probe('arrhenius-Ea-explicit-molecularity')
+        if q in ('HoRT', 'GoRT', 'UoRT', 'FoRT') and m['cls'] == 'Reaction':
+            # the same relations in energy units: change = final - initial, forward - reverse activation = change, and the
+            # dimensional value is the dimensionless one times R T in that unit (one constants table for all of them)
+            from pmutt import constants as pc
+            T = cond['T']
+            for unit in ('kcal/mol', 'J/mol', 'cal/mol', 'kJ/mol', 'eV/molecule'):
+                try:
+                    RT = pc.R(unit + '/K') * T
+                except KeyError:
+                    continue
+                name_ = q[:-3]
+                wantd = (val['products'][0] - val['reactants'][0]) * RT
+                gotd = call(getattr(rxn, 'get_delta_' + name_), 'get_delta_%s(units=%r)' % (name_, unit), units=unit)
+                if abs(gotd - wantd) > 1e-10 * (scale * RT):
+                    raise Violation('hess', 'reaction %d: get_delta_%s(units=%r) = %r; (final - initial) R T = %r' % (
+                        r, name_, unit, gotd, wantd))
+                if 'transition state' in val and hasattr(rxn, 'get_%s_act' % name_):
+                    af = call(getattr(rxn, 'get_%s_act' % name_), 'get_%s_act(units=%r)' % (name_, unit), units=unit, rev=F(False))
+                    ar = call(getattr(rxn, 'get_%s_act' % name_), 'get_%s_act(units=%r, rev)' % (name_, unit), units=unit, rev=F(True))
+                    tsc = val['transition state'][1] * RT
+                    if abs((af - ar) - gotd) > 1e-10 * (scale * RT + 2 * tsc):
+                        raise Violation('detailed-balance', 'reaction %d: %s_act forward - reverse = %r %s, reaction change %r' % (
+                            r, name_, af - ar, unit, gotd))
+                    wa = (val['transition state'][0] - val['reactants'][0]) * RT
+                    if abs(af - wa) > 1e-10 * (scale * RT + tsc):
+                        raise Violation('activation', 'reaction %d: get_%s_act(units=%r) = %r; (transition state - reactants) R T = %r' % (
+                            r, name_, unit, af, wa))
+            ctx.probe('dimensional-getters')
+        if q == 'EoRT' and m['cls'] == 'Reaction' and all(self.spk[i] == 'StatMech' for i, _ in m['reactants'] + m['products']):
+            # electronic energy with the zero-point energy included: the option reaches every species, in every form
+            z = {}
+            for st in ('reactants', 'products'):
+                tot = 0.0
+                for sid, nu in m[st]:
+                    kw = self._route(self.sp[sid].name, cond)
+                    tot += nu * float(self.sp[sid].get_EoRT(T=kw['T'], include_ZPE=True))
+                z[st] = tot
+            wz = z['products'] - z['reactants']
+            for label, fn, kw2, factor in (
+                    ('get_delta_EoRT(include_ZPE=True)', rxn.get_delta_EoRT, {}, 1.0),
+                    ('get_delta_E(units=kJ/mol, include_ZPE=True)', rxn.get_delta_E, {'units': 'kJ/mol'},
+                     __import__('pmutt').constants.R('kJ/mol/K') * cond['T'])):
+                gz = call(fn, label, include_ZPE=True, **kw2)
+                if abs(gz - wz * factor) > 1e-10 * max(1.0, abs(z['products']) + abs(z['reactants'])) * factor:
+                    raise Violation('hess', 'reaction %d: %s = %r; sum over species with the zero-point energy = %r' % (
+                        r, label, gz, wz * factor))
+            ctx.probe('electronic-energy-with-ZPE')
         return round(worst, 9)
 
     def abstract_state(self):
